@@ -441,7 +441,7 @@ def drain(interp, it, kind, node=None):
         sym_exhaust(it)
         return Seq(arr, n, kind, 'Fresh')
     j = smt.fresh_int('cj')
-    paths = ite_paths(interp, lambda: sym_element(interp, it, j), [z3.And(0 <= j, j < n)])
+    paths = ite_paths(interp, lambda: sym_element(interp, it, j), [z3.And(0 <= j, j < n)], bound=j)
     raising = [(g, e) for g, v, e in paths if e is not None]
     if raising:
         rg = z3.Or([g for g, e in raising])
@@ -457,10 +457,10 @@ def drain(interp, it, kind, node=None):
             raise retarget(raising[-1][1], j, j0)
         ctx.assume(z3.ForAll([j], z3.Implies(z3.And(0 <= j, j < n), z3.Not(rg))))
     val = None
-    for g, v, e in reversed(paths):
+    for (g, v, e), sub in reversed(list(zip(paths, paths.substs))):
         if e is not None:
             continue
-        vv = as_v(v)
+        vv = sub(as_v(v))
         val = vv if val is None else z3.If(g, vv, val)
     if val is None:
         ctx.assume(n <= 0)
@@ -479,9 +479,15 @@ def retarget(e, j, j0):
     return e
 
 
-def ite_paths(interp, thunk, hyps):
-    """all paths of a pure expression under extra hypotheses: [(guard, value, exception)]; global facts emitted on the
-    way (axiom instances not mentioning the bound index) are re-emitted for the caller"""
+def ite_paths(interp, thunk, hyps, bound=None):
+    """all paths of a pure expression under extra hypotheses: [(guard, value, exception)].
+    `bound` is the variable the expression is generic in (the index j of a comprehension / the generic element of a filter).
+    Evaluating the expression may create fresh witnesses whose defining facts are ASSUMED (e.g. the position returned by
+    list.index): such a witness depends on the bound variable, so it is skolemised -- replaced by a fresh function of `bound`
+    -- in the guard and in the value (use the `subst` attribute of the returned list on value terms), and its defining facts
+    are emitted universally quantified over `bound`, under the hypotheses and the branch conditions of their path.  Facts that
+    mention neither the bound variable nor a path-local witness are global and re-emitted as they are."""
+    from .interp import BRANCH_IDS
     ctx = interp.ctx
     saved = (ctx.decisions, ctx.taken, ctx.alternatives, ctx.facts)
     results = []
@@ -493,6 +499,7 @@ def ite_paths(interp, thunk, hyps):
             ctx.decisions, ctx.taken, ctx.alternatives = list(dec), [], []
             ctx.facts = list(base_facts)
             nfacts = len(ctx.facts)
+            mark = len(smt.FRESH_LOG)
             exc = v = None
             try:
                 v = thunk()
@@ -501,22 +508,51 @@ def ite_paths(interp, thunk, hyps):
                 continue
             except PyExc as e:
                 exc = e
-            results.append((ctx.facts[nfacts:], v, exc))
+            results.append((ctx.facts[nfacts:], v, exc, list(smt.FRESH_LOG[mark:])))
             work.extend(ctx.alternatives)
             if len(results) > 64:
                 raise Unsupported('element expression has too many paths')
     finally:
         ctx.decisions, ctx.taken, ctx.alternatives, ctx.facts = saved
-    out = []
-    for conds, v, exc in results:
-        guards = []
-        for c in conds:
-            if is_axiom_instance(c):
-                emit(c)
+    out = PathList()
+    bname = str(bound) if bound is not None else None
+    for conds, v, exc, fresh in results:
+        local = [c for c in fresh if bound is None or not c.eq(bound)]
+        used = set()
+        texts = [(c, c.sexpr()) for c in conds]
+        for w in local:
+            wn = str(w)
+            if any(wn in t for _, t in texts):
+                used.add(wn)
+        sk = []
+        if bound is not None:
+            for w in local:
+                if str(w) in used:
+                    f = z3.Function('sk!' + str(w), bound.sort(), w.sort())
+                    sk.append((w, f(bound)))
+        subst = (lambda t, sk=sk: z3.substitute(t, *sk)) if sk else (lambda t: t)
+        guards, assumed = [], []
+        for c, t in texts:
+            mentions = (bname is not None and bname in t) or ('cj!' in t) or any(wn in t for wn in used)
+            if not mentions:
+                emit(c)                              # a global fact (axiom instance)
+            elif c.get_id() in BRANCH_IDS:
+                guards.append(subst(c))
+            elif bound is not None:
+                # a defining fact of a witness: holds whenever the path has got this far (the branch conditions BEFORE it)
+                emit(z3.ForAll([bound], z3.Implies(z3.And(list(hyps) + list(guards)) if (hyps or guards) else z3.BoolVal(True), subst(c))))
             else:
-                guards.append(c)
-        out.append((z3.And(guards) if guards else z3.BoolVal(True), v, exc))
+                assumed.append(subst(c))
+        g = z3.And(guards + assumed) if (guards or assumed) else z3.BoolVal(True)      # (no bound variable: the old path-condition reading)
+        out.append((g, v, exc))
+        out.substs.append(subst)
     return out
+
+
+class PathList(list):
+    def __init__(self):
+        list.__init__(self)
+        self.substs = []
 
 
 def index_term(interp, s, idx, node, what='index'):
@@ -1493,7 +1529,7 @@ def exact_filter(interp, it, gen, node, env, kind, keep_and_val):
             and isinstance(getattr(node, 'elt', None), ast.Name) and node.elt.id == gen.target.id):
         return None
     e = smt.fresh_v('cj!felem')          # ('cj!' marks facts about the bound element as branch conditions, see is_axiom_instance)
-    paths = ite_paths(interp, lambda: keep_and_val(SCell(e)), [])
+    paths = ite_paths(interp, lambda: keep_and_val(SCell(e)), [], bound=e)
     if any(exc is not None for _, _, exc in paths):
         return None
     phi = z3.Or([g for g, v, _ in paths if v[0]] + [z3.BoolVal(False)])
